@@ -393,12 +393,11 @@ func (e *etcdRig) fullState() string {
 
 // runC16Concurrent: concurrent etcd clients on one key. Under etcd semantics compare and failure-branch read are
 // one atomic step, so a failed guarded transaction can never return a key-value whose mod revision equals the
-// revision it compared with (revisions only grow). Run on the engines whose failed compare is a real compare
-// (memkv, Badger); on TiKV a write conflict is mapped to a failed compare and the re-read may precede the
-// conflicting commit, which is stated as a limitation in DESIGN.md.
+// revision it compared with (revisions only grow). Runs on all three engines (on TiKV since fix 1ef9d67: a write conflict
+// used to be answered as a failed compare).
 func runC16Concurrent(c *harness.Case) {
 	r := c.Rng
-	kind := []string{"memkv", "badger"}[r.Intn(2)]
+	kind := []string{"memkv", "badger", "tikv"}[r.Intn(3)]
 	n, eng, ok := newSeqNode(c, kind, backend.Config{EnableEtcdCompatibility: true})
 	if !ok {
 		return
